@@ -1675,6 +1675,99 @@ example : TiesSeparated (fun a => if a = 1 then 0 else 5) 2 := by
     rcases h1 with rfl | rfl | rfl <;> rcases h2 with rfl | rfl | rfl <;> rcases h3 with rfl | rfl | rfl <;>
       norm_num [checkEqualGeneral, checkEqualSmall, absR, minR, AITB.Gen.equalToleranceSmall, AITB.Gen.equalToleranceGeneral]
 
+theorem minR_eq_min (a b : Rat) : minR a b = min a b := by
+  unfold minR
+  by_cases h : b < a
+  · simp [h, min_eq_right (le_of_lt h)]
+  · simp [h, min_eq_left (not_lt.mp h)]
+
+theorem checkEqualGeneral_iff (a b : Rat) : checkEqualGeneral a b = true ↔
+    (|a - b| ≤ AITB.Gen.equalToleranceSmall ∨ |a - b| ≤ min |a| |b| * AITB.Gen.equalToleranceGeneral) := by
+  unfold checkEqualGeneral checkEqualSmall
+  simp only [Bool.or_eq_true, decide_eq_true_eq, absR_eq, minR_eq_min]
+
+theorem tolGeneral_le_one : AITB.Gen.equalToleranceGeneral ≤ 1 := by norm_num [AITB.Gen.equalToleranceGeneral]
+
+/-- **checkEqualGeneral_between.**  The library's tie test is convex: an entry between two tied entries is tied to both (all rationals). -/
+theorem checkEqualGeneral_between (a b c : Rat) (hab : a ≤ b) (hbc : b ≤ c) (h : checkEqualGeneral a c = true) :
+    checkEqualGeneral a b = true ∧ checkEqualGeneral b c = true := by
+  rw [checkEqualGeneral_iff] at h ⊢
+  rw [checkEqualGeneral_iff]
+  have g0 := tolGeneral_nonneg
+  have g1 := tolGeneral_le_one
+  have s0 := tolSmall_pos
+  have e1 : |a - b| = b - a := by rw [abs_sub_comm]; exact abs_of_nonneg (by linarith)
+  have e2 : |b - c| = c - b := by rw [abs_sub_comm]; exact abs_of_nonneg (by linarith)
+  have e3 : |a - c| = c - a := by rw [abs_sub_comm]; exact abs_of_nonneg (by linarith)
+  rw [e1, e2]; rw [e3] at h
+  rcases h with h | h
+  · exact ⟨Or.inl (by linarith), Or.inl (by linarith)⟩
+  · rcases le_total 0 a with ha | ha
+    · -- 0 ≤ a ≤ b ≤ c
+      have hb : 0 ≤ b := le_trans ha hab
+      have hc : 0 ≤ c := le_trans hb hbc
+      rw [abs_of_nonneg ha, abs_of_nonneg hc, min_eq_left (le_trans hab hbc)] at h
+      rw [abs_of_nonneg ha, abs_of_nonneg hb, abs_of_nonneg hc, min_eq_left hab, min_eq_left hbc]
+      refine ⟨Or.inr (by linarith), Or.inr ?_⟩
+      have : a * AITB.Gen.equalToleranceGeneral ≤ b * AITB.Gen.equalToleranceGeneral := mul_le_mul_of_nonneg_right hab g0
+      linarith
+    · rcases le_total c 0 with hc | hc
+      · -- a ≤ b ≤ c ≤ 0
+        have hb : b ≤ 0 := le_trans hbc hc
+        rw [abs_of_nonpos ha, abs_of_nonpos hc, min_eq_right (by linarith)] at h
+        rw [abs_of_nonpos ha, abs_of_nonpos hb, abs_of_nonpos hc, min_eq_right (by linarith), min_eq_right (by linarith)]
+        refine ⟨Or.inr ?_, Or.inr (by linarith)⟩
+        have : (-c) * AITB.Gen.equalToleranceGeneral ≤ (-b) * AITB.Gen.equalToleranceGeneral :=
+          mul_le_mul_of_nonneg_right (by linarith) g0
+        linarith
+      · -- a ≤ 0 ≤ c: the relative test can only pass when both are 0
+        rw [abs_of_nonpos ha, abs_of_nonneg hc] at h
+        have hm : min (-a) c * AITB.Gen.equalToleranceGeneral ≤ min (-a) c := by
+          have hmn : 0 ≤ min (-a) c := le_min (by linarith) hc
+          nlinarith
+        have h1 : min (-a) c ≤ -a := min_le_left _ _
+        have h2 : min (-a) c ≤ c := min_le_right _ _
+        have hca : c - a ≤ 0 := by
+          rcases le_total (-a) c with h3 | h3
+          · rw [min_eq_left h3] at hm h; linarith
+          · rw [min_eq_right h3] at hm h; linarith
+        exact ⟨Or.inl (by linarith), Or.inl (by linarith)⟩
+
+/-- transitivity of the tie test among the first N+1 entries -/
+def TiesTransitive (q : Nat → Rat) (N : Nat) : Prop :=
+  ∀ i j k, i ≤ N → j ≤ N → k ≤ N → checkEqualGeneral (q i) (q j) = true → checkEqualGeneral (q j) (q k) = true →
+    checkEqualGeneral (q i) (q k) = true
+
+theorem tiesSeparated_of_transitive (q : Nat → Rat) (N : Nat) (H : TiesTransitive q N) : TiesSeparated q N := by
+  constructor
+  · intro i j k hi hj hk hij
+    cases h1 : checkEqualGeneral (q k) (q i) <;> cases h2 : checkEqualGeneral (q k) (q j)
+    · rfl
+    · exfalso
+      have := H k j i hk hj hi h2 (by rw [checkEqualGeneral_symm]; exact hij)
+      rw [h1] at this; exact absurd this (by simp)
+    · exfalso
+      have := H k i j hk hi hj h1 hij
+      rw [h2] at this; exact absurd this (by simp)
+    · rfl
+  · intro i j k _ _ _ hij hjk h
+    exact checkEqualGeneral_between (q i) (q j) (q k) hij hjk h
+
+/-- **greedyRowScan_sum_one_iff_chainfree (⇐).**  The as-found `getPolicy` row is a distribution on every row whose ties are transitive —
+    the only rows on which C01-3 shows are genuine chains a≈b, b≈c, a≉c. -/
+theorem greedyRowScan_sum_one_of_transitive (A : Nat) (hA : 0 < A) (q : Nat → Rat) (H : TiesTransitive q (A - 1)) :
+    sumTo A (greedyRowScan A q) = 1 :=
+  greedyRowScan_sum_one_of_separated A hA q (tiesSeparated_of_transitive q (A - 1) H)
+
+/-- the chain row of the counterexample is, as it must be, not transitive (test on literals) -/
+example : ¬ TiesTransitive chainRow 2 := by
+  intro H
+  have := H 0 1 2 (by omega) (by omega) (by omega)
+    (by norm_num [chainRow, checkEqualGeneral, checkEqualSmall, absR, minR, AITB.Gen.equalToleranceSmall, AITB.Gen.equalToleranceGeneral])
+    (by norm_num [chainRow, checkEqualGeneral, checkEqualSmall, absR, minR, AITB.Gen.equalToleranceSmall, AITB.Gen.equalToleranceGeneral])
+  revert this
+  norm_num [chainRow, checkEqualGeneral, checkEqualSmall, absR, minR, AITB.Gen.equalToleranceSmall, AITB.Gen.equalToleranceGeneral]
+
 /-- whichever shape the source has: entries of a greedy row are 0 or 1/c for one count c ∈ [1, A] -/
 theorem greedyRow_form (A : Nat) (hA : 0 < A) (q : Nat → Rat) :
     ∃ c : Nat, 1 ≤ c ∧ c ≤ A ∧ ∀ a, greedyRow A q a = 0 ∨ greedyRow A q a = 1 / (c : Rat) := by
